@@ -417,6 +417,8 @@ impl Prop for C07 {
                     (0..6).map(|_| "+---+ +---+ +---+\n|{w}| |{w}| |{w}|\n+---+ +---+ +---+").collect::<Vec<_>>().join("\n"),
                     "+-----+\n|{a,b}|\n+-----+\n# Legend:\na = {fill:red}".to_string(),
                     "*--> .-.\n    ( a )\n     `-'".to_string(),
+                    // box-drawing glyphs right next to neighbour-sensitive ASCII characters
+                    (0..5).map(|_| "+──+ .──. *──> ┌-+\n│  │ │  │      │ |\n+──+ '──'      └-+").collect::<Vec<_>>().join("\n"),
                 ];
                 let scales = [1.0f32, 37.5, 3.0, 20.0, 8.0, 0.5];
                 // sequential references
